@@ -239,7 +239,9 @@ def coq_chunk(mod, results, impl_s=0.0, part=0):
             for (ex, wi, looks) in cases)
         t += f"""Definition pts{S} : list pt_case := [{pts}].
 Definition ptbad{S} := Eval vm_compute in pts_bad parsed{S} {'true' if tol > 0 else 'false'} pts{S}.
-Print ptbad{S}.
+Definition lcbad{S} := Eval vm_compute in lc_bad parsed{S} pts{S}.
+Definition covern{S} := Eval vm_compute in cover_count parsed{S} pts{S}.
+Print ptbad{S}. Print lcbad{S}. Print covern{S}.
 """
         text += t
         res.update(names={str(a): b for a, b in it.names.items()}, man_base=man_base, pt_meta=meta, n_cases=sum(len(l) for _, _, l in cases), pt_looks=[[k_ for (_, _, _, k_) in l] for _, _, l in cases], suffix=S)
@@ -264,8 +266,11 @@ Print ptbad{S}.
         S = res["suffix"]
         res["coq_ok"] = ok
         res["coq_out"] = out[-3000:] if not ok else ""
-        res["printed"] = {k[:-len(S)]: v for k, v in pr.items() if k.endswith(S) and not k.startswith("ptbad")}
+        res["printed"] = {k[:-len(S)]: v for k, v in pr.items() if k.endswith(S) and not k.startswith(("ptbad", "lcbad", "covern", "pbad"))}
         res["ptbad"] = pr.get("ptbad" + S)
+        res["lcbad"] = pr.get("lcbad" + S)
+        res["covern"] = pr.get("covern" + S)
+        res["pbad"] = pr.get("pbad" + S)
         res["gen"] = os.path.join(common.GEN, mod + ".v")
         res["impl_s"], res["coq_s"] = impl_s / max(1, len(all_results)), coq_s / len(live)
     return all_results
@@ -392,6 +397,11 @@ def judge(c, res):
                                         end_is_successor=E[lu]["_successor"] == m["endLane"],
                                         end_has_successor=E[m["endLane"]]["_successor"] is not None))
             d["offending"] = off
+            # incoming lanes (listed through the junction's <laneLink>) whose own lane record declares no successor
+            d["incoming_without_successor"] = [lu for lu in e.get("incomingLanes", []) if E[lu].get("_successor") is None]
+            d["only_incoming_lanes_without_declared_successor"] = (not off and bool(d["incoming_without_successor"]) and all(
+                E[lu].get("_successor") is not None and any(P["mans"][mi - 1]["connectingLane"] == E[lu]["_successor"] for mi in e["maneuvers"])
+                for lu in e.get("incomingLanes", []) if lu not in d["incoming_without_successor"]))
             d["only_dummy_mergers_into_dead_end_connecting_lanes"] = bool(off) and all(
                 o["maneuver"]["connectingLane"] is None and o["end_on_connecting_road"] and o["end_is_successor"]
                 and not o["end_has_successor"] for o in off)
@@ -429,6 +439,36 @@ def judge(c, res):
             c.violation("lookup", "a lookup differs from the two-pass priority-ordered model (elementAt/roadAt/laneAt/... at this point)",
                         dict(ident, point=rec["p"], lookups_compared=res["pt_looks"][idx], impl=dict(rec["look"], direl=rec.get("direl")),
                              answers=rec["ans"], tolerance=tol, gen=res["gen"], case_index=idx))
+    # lookup_consistent instantiated: where every road answers like the union of its lanes, laneAt and roadAt agree
+    if res.get("covern"):
+        c.hist("points:cover_at-holds", res["covern"][0])
+        c.hist("points:cover_at-evaluated", len(res["pt_meta"]))
+    hyp_broken = any(rule in (54, 74, 75) for (_u, rule) in (res.get("printed") or {}).get("hbad", []))
+    if hyp_broken and res.get("lcbad"):
+        c.hist("lookup-consistency:skipped-hierarchy-rule-54/74/75-fails")   # the theorem's hypothesis does not hold for this network
+    for idx in ([] if hyp_broken else (res.get("lcbad") or [])):
+        rec = res["points"][res["pt_meta"][idx]]
+        c.violation("lookup-consistency", "laneAt and roadAt disagree at a point where every road answers like the union of its lanes "
+                    "(instance of C20_lookup_consistent)", dict(ident, point=rec["p"], impl=rec["look"], answers=rec["ans"], tolerance=tol, gen=res["gen"], case_index=idx))
+    # reconnect_inverse instantiated: every object holding a link is walked by Network.__setstate__ and links to registered elements
+    if res.get("pbad") is None:
+        c.violation("kernel", "the kernel did not print pbad", dict(ident, gen=res["gen"]), no_input=True)
+    else:
+        names = res["names"]
+        for u in res["pbad"][:5]:
+            e = E.get(names.get(str(u)))
+            c.violation("pickle-scope", "an object holding links is outside what Network.__setstate__ reconnects, or links to an element that is "
+                        "not in Network.elements (instance of C20_reconnect_inverse fails)",
+                        dict(ident, uid=names.get(str(u), u), cls=(e or {}).get("cls"), gen=res["gen"]))
+    # conflictingManeuvers / reverseManeuvers
+    if "maneuver_error" in res:
+        c.violation("harness", "the maneuver probe crashed", dict(ident, tb=res["maneuver_error"]), no_input=True)
+    else:
+        c.hist("maneuvers-examined", res.get("maneuvers_examined", 0))
+        c.cov["disagreements_checked"] += res.get("maneuvers_examined", 0)
+        for which in ("maneuver_bad", "maneuver_bad_cached"):
+            for b in res.get(which, []):
+                c.violation("maneuver-reciprocity", "conflictingManeuvers/reverseManeuvers: " + b["rule"], dict(ident, **b, network="cached" if which.endswith("cached") else "parsed"))
     judge_points(c, res, ident, E, tol)
     # cached network answers the same lookups
     for a, b in zip(res["points"], res["points_cached"]):
@@ -548,11 +588,16 @@ def cache_cases(c, res, ident):
             c.violation("cache-error", "Network.fromFile raised instead of falling back to the parser", dict(ident, variant=var, outcome=pr["outcome"]))
             continue
         # property oracle: unchanged -> used; anything changed -> ignored
-        noop = k == "truncate" and var["len"] >= pr["orig_len"]   # cache file shorter than the cut: nothing changed
+        # cache file shorter than the cut, or the cut removed only bytes after the end of the pickle inside the gzip stream
+        # (trailer / final padding: the whole network is still read): nothing the loader depends on changed
+        noop = k == "truncate" and var["len"] >= pr["orig_len"]
+        tail_only = k == "truncate" and not noop and bool(pr.get("payload_intact"))   # either outcome is legitimate
         should = (k == "same") or noop
         if k == "version" and pr["version"] == cur:
             should = True
-        if used != should:
+        if tail_only:
+            c.hist("cache-probe:truncate:only-bytes-after-the-pickle-cut:" + pr["outcome"])
+        elif used != should:
             c.violation("cache-decision", ("the cache was ignored although nothing changed" if should else
                                            f"the cache was used although the {k} changed"), dict(ident, variant=var, outcome=pr["outcome"], changed=var.get("changed")))
         # model case
@@ -560,7 +605,7 @@ def cache_cases(c, res, ident):
         d = bytes.fromhex(pr["map_digest"])
         o = hashlib.blake2b(frame_bytes(pr["opts"]), digest_size=8).digest()
         hdr = bytes.fromhex(pr["hdr_hex"])
-        payload_ok = not (k == "truncate") or noop
+        payload_ok = used if tail_only else (not (k == "truncate") or noop)
         out.append((f"({use}, {cur}%N, {coq_bytes(d)}, {coq_bytes(o)}, Some {coq_bytes(hdr)}, {'true' if payload_ok else 'false'}, {'true' if used else 'false'})",
                     dict(ident, variant=var, outcome=pr["outcome"])))
     # options digest vs model framing
@@ -599,7 +644,8 @@ def main():
             name = f"{base}__o{oi}"
             jobs.append(dict(kind="export", name=name, map=p, map_orig=p, opts=opts, scratch=os.path.join(SCRATCH, name),
                              seed=rng.randrange(10 ** 9), npts=npts if size < 10 ** 6 or not quick else 120,
-                             variants=cache_variants(rng, opts, quick) if (oi == 0 or not quick) else cache_variants(rng, opts, True)[:6]))
+                             variants=cache_variants(rng, opts, quick) if (oi == 0 or not quick) else
+                             [v for i, v in enumerate(cache_variants(rng, opts, True)) if i < 3 or v["kind"].startswith("option")]))
         nmut = (1 if size < 300_000 else 0) if quick else (6 if size < 10 ** 6 else 2)
         for mi in range(nmut):
             name = f"{base}__m{mi}"
